@@ -105,7 +105,7 @@ Print Assumptions C17_every_notification_answered_full.
 
 (* Reaper.SubmitTxs: each batch of new transactions the sequencer accepted is non-empty and emits a
    notification at that instant — for all histories of executor answers (errors, repeated and
-   duplicated transactions) and sequencer refusals ... *)
+   duplicated transactions), sequencer refusals and failed seen-store writes ... *)
 Theorem C17_reaper_notifies_full : forall evs x b,
   In (x, b) (rsubs evs) -> b <> [] /\ In x (rnotifs evs).
 Proof. exact reaper_sub_notifies. Qed.
@@ -205,11 +205,11 @@ Proof. exact rate_refuted_trace. Qed.
    notification, not marked seen); tx 2 (listed twice, with tx 1) submitted at 2.2 s INSIDE the production
    -> further production at 3 s *)
 Definition ex_revs : list (Z * rin) :=
-  [ (1200 * ms, {| ri_get := Some [1%N]; ri_ok := true |});
-    (1500 * ms, {| ri_get := Some [1%N]; ri_ok := true |});
-    (1600 * ms, {| ri_get := None; ri_ok := true |});
-    (1700 * ms, {| ri_get := Some [3%N]; ri_ok := false |});
-    (2200 * ms, {| ri_get := Some [1%N; 2%N; 2%N]; ri_ok := true |}) ].
+  [ (1200 * ms, {| ri_get := Some [1%N]; ri_ok := true; ri_seen_ok := true |});
+    (1500 * ms, {| ri_get := Some [1%N]; ri_ok := true; ri_seen_ok := true |});
+    (1600 * ms, {| ri_get := None; ri_ok := true; ri_seen_ok := true |});
+    (1700 * ms, {| ri_get := Some [3%N]; ri_ok := false; ri_seen_ok := true |});
+    (2200 * ms, {| ri_get := Some [1%N; 2%N; 2%N]; ri_ok := true; ri_seen_ok := true |}) ].
 
 Example ex_reaper_history :
   rsubs ex_revs = [(1200 * ms, [1%N]); (2200 * ms, [2%N])] /\
